@@ -324,7 +324,7 @@ def run(ctx):
                 nkept += 1
             npk += 1
             if exp is None:
-                if not r["skipped"]:
+                if not r.get("skipped"):
                     ctx.violation("pickle-unrepresentable-emitted ts=%s" % ts_class(p),
                                   "a frame was produced for %r whose timestamp cannot be represented" % p["text"], dict(line=p["text"]))
                 continue
